@@ -2,65 +2,121 @@ import ScrapliProps.C11Lemmas
 namespace Scrapli.Lifecycle
 variable {cfg : Cfg} {P : St → Prop}
 
-theorem execProg_append (f : Stmt → St → List Ev → R) (p q : Prog) : ∀ (s : St) (tape : List Ev),
-    execProg f cfg (p ++ q) s tape =
-      if (execProg f cfg p s tape).ok then
-        { execProg f cfg q (execProg f cfg p s tape).st (execProg f cfg p s tape).tape with
-          tr := (execProg f cfg p s tape).tr ++ (execProg f cfg q (execProg f cfg p s tape).st (execProg f cfg p s tape).tape).tr }
-      else execProg f cfg p s tape := by
-  induction p with
-  | nil =>
-    intro s tape
-    simp [execProg, R.ok]
-  | cons n rest ih =>
-    intro s tape
-    rw [List.cons_append, execProg, execProg]
-    by_cases hok : (execNode f cfg n s tape).ok = true
-    · simp only [hok, if_true]
-      rw [ih]
-      by_cases hok2 : (execProg f cfg rest (execNode f cfg n s tape).st (execNode f cfg n s tape).tape).ok = true
-      · simp [hok2, R.ok, List.append_assoc]
-        simp [R.ok] at hok2
-        simp [hok2]
-      · simp [hok2, R.ok]
-        simp [R.ok] at hok2
-        simp [hok2]
-    · simp [hok]
+/-! ### histories -/
 
-end Scrapli.Lifecycle
-namespace Scrapli.Lifecycle
-variable {cfg : Cfg}
+/-- the state a history ends in -/
+def stateAfter (cfg : Cfg) : List (Op × List Ev) → St → St
+  | [], s => s
+  | (op, tape) :: rest, s => stateAfter cfg rest (runOp cfg op s tape).st
 
-/-- the first three statements of open() of either driver -/
-def openPre : Prog :=
-  [.simple ⟨.always, .logPre false⟩, .simple ⟨.always, .transportOpen⟩, .simple ⟨.always, .channelOpen⟩]
+theorem released_history (hfix : FixedCfg cfg) : ∀ (h : List (Op × List Ev)) (s : St), Inv cfg s → okHistory cfg h s = true →
+    ∀ p ∈ h.zip (runHistory cfg h s), p.1.1.closes = true → Released p.2.st := by
+  intro h
+  induction h with
+  | nil => intro s _ _ p hp; simp [runHistory] at hp
+  | cons x rest ih =>
+    obtain ⟨op, tape⟩ := x
+    intro s hinv hok p hp hcl
+    have hok' : allowed op s = true ∧ okHistory cfg rest (runOp cfg op s tape).st = true := by
+      simpa [okHistory] using hok
+    simp only [runHistory, List.zip_cons_cons, List.mem_cons] at hp
+    rcases hp with hp | hp
+    · subst hp
+      cases op with
+      | «open» => simp [Op.closes] at hcl
+      | operate => simp [Op.closes] at hcl
+      | close => exact (inv_close hfix s tape hinv).2.1
+      | withBlock body =>
+        have ha : s.needClose = false ∧ bodyOK body true = true := by simpa [allowed] using hok'.1
+        exact (inv_with hfix s tape body hinv ha.1 ha.2).2.1
+    · exact ih _ (inv_runOp hfix op s tape hinv hok'.1) hok'.2 p hp hcl
 
-theorem openOf_split (st : Stack) : ∃ tail, openOf st = openPre ++ tail := by
-  cases st
-  · exact ⟨_, rfl⟩
-  · exact ⟨_, rfl⟩
+theorem reach_of_history : ∀ (h : List (Op × List Ev)) (s : St), Reach cfg s → okHistory cfg h s = true → Reach cfg (stateAfter cfg h s) := by
+  intro h
+  induction h with
+  | nil => intro s hs _; exact hs
+  | cons x rest ih =>
+    obtain ⟨op, tape⟩ := x
+    intro s hs hok
+    have hok' : allowed op s = true ∧ okHistory cfg rest (runOp cfg op s tape).st = true := by
+      simpa [okHistory] using hok
+    exact ih _ (Reach.step op tape hs hok'.1) hok'.2
 
-set_option maxHeartbeats 1000000 in
-theorem openPre_congr (x : St) (la la' : Bool) (tn tn' : Tn) (hla : la = true → cfg.sink ≠ .none) (hla' : la' = true → cfg.sink ≠ .none)
-    (htn : resetTn (resetsOf cfg) tn = resetTn (resetsOf cfg) tn') (tape : List Ev) :
-    (execProg (execStmt0 cfg) cfg openPre { x with logAttached := la, tn := tn } tape).out
-      = (execProg (execStmt0 cfg) cfg openPre { x with logAttached := la', tn := tn' } tape).out ∧
-    (execProg (execStmt0 cfg) cfg openPre { x with logAttached := la, tn := tn } tape).tape
-      = (execProg (execStmt0 cfg) cfg openPre { x with logAttached := la', tn := tn' } tape).tape ∧
-    (execProg (execStmt0 cfg) cfg openPre { x with logAttached := la, tn := tn } tape).tr
-      = (execProg (execStmt0 cfg) cfg openPre { x with logAttached := la', tn := tn' } tape).tr ∧
-    ((execProg (execStmt0 cfg) cfg openPre { x with logAttached := la, tn := tn } tape).ok = true →
-      (execProg (execStmt0 cfg) cfg openPre { x with logAttached := la, tn := tn } tape).st
-        = (execProg (execStmt0 cfg) cfg openPre { x with logAttached := la', tn := tn' } tape).st) ∧
-    { (execProg (execStmt0 cfg) cfg openPre { x with logAttached := la, tn := tn } tape).st with logAttached := false }
-      = { (execProg (execStmt0 cfg) cfg openPre { x with logAttached := la', tn := tn' } tape).st with logAttached := false } := by
-  have hk : ∀ t : List Ev, (match t with | [] => EvK.ok | e :: _ => e.k) = EvK.ok ∨ (match t with | [] => EvK.ok | e :: _ => e.k) = EvK.drop ∨
-      (match t with | [] => EvK.ok | e :: _ => e.k) = EvK.stall ∨ (match t with | [] => EvK.ok | e :: _ => e.k) = EvK.refuse ∨
-      (match t with | [] => EvK.ok | e :: _ => e.k) = EvK.authFail := by
-    intro t; cases (match t with | [] => EvK.ok | e :: _ => e.k) <;> simp
-  cases hs : cfg.sink <;> cases hpk : (cfg.kind == TKind.paramiko) <;>
-    rcases hk tape with h | h | h | h | h <;>
-    simp [openPre, execProg, execNode, execList, guardHolds, execStmt0, transportOpen, channelOpen, R.ok, h, hs, hpk, htn] <;>
-    simp_all
+/-! ### with-block whose open() fails -/
+
+theorem with_failed_open (hfix : FixedCfg cfg) (s : St) (tape : List Ev) (body : List BodyOp) (h : Inv cfg s) (hn : s.needClose = false)
+    (hfail : (runOpen cfg { s with needClose := true } tape).out ≠ .returns) :
+    (opWith cfg body s tape).out = .raises .connError ∧ Released (opWith cfg body s tape).st ∧
+    (opWith cfg body s tape).tape = (runOpen cfg { s with needClose := true } tape).tape := by
+  obtain ⟨_, hce, _⟩ := code_fixed_parts hfix.1
+  obtain ⟨ho1, _⟩ := inv_open hfix s tape h hn
+  unfold opOpen at ho1
+  obtain ⟨e1, e2, e3⟩ := runEnter_unfold hce { s with needClose := true } tape
+  have hok' : (runOpen cfg { s with needClose := true } tape).ok = false := (ok_false_iff _).2 hfail
+  have hek : (runEnter cfg { s with needClose := true } tape).ok = false := by
+    rw [ok_false_iff, e2]; simp [hok']
+  have hst : (runEnter cfg { s with needClose := true } tape).st
+      = channelClose cfg (transportClose cfg (runOpen cfg { s with needClose := true } tape).st) := by
+    rw [e1]; simp [hok']
+  have hr := closeBoth_released hfix.2 _ ho1.1
+  rw [← hst] at hr
+  unfold opWith
+  simp only [hek, Bool.not_false, if_true]
+  refine ⟨?_, Released_need false hr, e3⟩
+  rw [e2]; simp [hok']
+
+/-! ### second close -/
+
+theorem second_close (hfix : FixedCfg cfg) (c : St) (tape : List Ev) (hr : Released c) (hn : c.needClose = false) :
+    (opClose cfg c tape).st = c ∧ (opClose cfg c tape).tape = tape ∧ (opClose cfg c tape).out = closedHookOutcome cfg.onClose := by
+  obtain ⟨r1, r2, r3⟩ := runClose_fixed hfix.1 c tape
+  obtain ⟨h1, h2, h3⟩ := hookPart_closed (cfg := cfg) c tape hr.1
+  unfold opClose
+  simp only
+  refine ⟨?_, by rw [r3, h2], by rw [r2, h3]⟩
+  rw [r1, h1, closeBoth_id hfix.2 c hr]
+  cases c; simp_all
+
+/-! ### close() of the pre-fix code, when the hook does not raise -/
+
+theorem runClose_orig_ok (hc : cfg.code.closeP = closeOrig cfg.stack) (s : St) (tape : List Ev)
+    (hhook : (hookPart cfg s tape).out = .returns) :
+    (runClose cfg s tape).st = channelClose cfg (transportClose cfg (hookPart cfg s tape).st) := by
+  have hhead : ∃ st, Quiet (execStmt0 cfg) st ∧ closeHead cfg.stack = .simple ⟨.always, st⟩ := by
+    cases cfg.stack
+    · exact ⟨_, quiet0_logPre true, rfl⟩
+    · exact ⟨_, quiet0_logPost true, rfl⟩
+  obtain ⟨st0, hq0, hh0⟩ := hhead
+  unfold runClose
+  rw [hc]
+  simp only [closeOrig, hh0]
+  obtain ⟨a1, _, _⟩ := execProg_cons_always (cfg := cfg) (execStmt0 cfg) st0
+    [.simple ⟨.hasOnClose, .onClose⟩, .simple ⟨.always, .transportClose⟩, .simple ⟨.always, .channelClose⟩, .simple ⟨.always, .logPost true⟩] s tape
+  have hq := hq0 s tape
+  rw [a1]
+  simp only [(ok_iff _).2 hq.2.2, if_true, hq.1, hq.2.1]
+  have hn : execNode (execStmt0 cfg) cfg (.simple ⟨.hasOnClose, .onClose⟩) s tape = hookPart cfg s tape := by
+    unfold execNode hookPart; rfl
+  have hnok : (execNode (execStmt0 cfg) cfg (.simple ⟨.hasOnClose, .onClose⟩) s tape).ok = true := by
+    rw [hn]; exact (ok_iff _).2 hhook
+  obtain ⟨b1, _, _, _⟩ := execProg_cons_go (cfg := cfg) (execStmt0 cfg) (.simple ⟨.hasOnClose, .onClose⟩)
+    [.simple ⟨.always, .transportClose⟩, .simple ⟨.always, .channelClose⟩, .simple ⟨.always, .logPost true⟩] s tape hnok
+  rw [b1, hn]
+  obtain ⟨c1, _, _⟩ := execProg_cons_always (cfg := cfg) (execStmt0 cfg) .transportClose
+    [.simple ⟨.always, .channelClose⟩, .simple ⟨.always, .logPost true⟩] (hookPart cfg s tape).st (hookPart cfg s tape).tape
+  rw [c1]
+  have htc : ∀ y tp, execStmt0 cfg .transportClose y tp = ⟨.returns, transportClose cfg y, tp, ["tclose"]⟩ := fun _ _ => rfl
+  have hcc : ∀ y tp, execStmt0 cfg .channelClose y tp = ⟨.returns, channelClose cfg y, tp, ["cclose"]⟩ := fun _ _ => rfl
+  have hlp : ∀ y tp, execStmt0 cfg (.logPost true) y tp = ⟨.returns, y, tp, ["post:c"]⟩ := fun _ _ => rfl
+  obtain ⟨d1, _, _⟩ := execProg_cons_always (cfg := cfg) (execStmt0 cfg) .channelClose
+    [.simple ⟨.always, .logPost true⟩] (transportClose cfg (hookPart cfg s tape).st) (hookPart cfg s tape).tape
+  obtain ⟨e1, _, _⟩ := execProg_cons_always (cfg := cfg) (execStmt0 cfg) (.logPost true)
+    [] (channelClose cfg (transportClose cfg (hookPart cfg s tape).st)) (hookPart cfg s tape).tape
+  simp only [htc, R.ok] at d1 ⊢
+  simp only [beq_self_eq_true, if_true]
+  rw [d1]
+  simp only [hcc, R.ok, beq_self_eq_true, if_true] at e1 ⊢
+  rw [e1]
+  simp [hlp, R.ok]
 
 end Scrapli.Lifecycle
